@@ -87,7 +87,7 @@ type c03rCase struct {
 }
 
 type c03rStats struct {
-	passes, overtaken, aboveRemoved, resub, delivered, fresh, parkedAcross, emptyActive, transientOpen atomic.Int64
+	passes, overtaken, aboveRemoved, resub, delivered, fresh, parkedAcross, emptyActive, transientOpen, completed atomic.Int64
 }
 
 func (x *c03rCase) op(f string, a ...any) {
@@ -167,7 +167,7 @@ func (x *c03rCase) open(class string, start int64, gor bool) *c03rReader {
 			rd.r = r
 			return rd
 		}
-		if try < 20000 && pkgErrors.Cause(err) == ErrSegmentClosed && x.passRunning() {
+		if try < 20000 && pkgErrors.Cause(err) == ErrSegmentClosed && (try < 2000 || x.passRunning()) {
 			// a pass of the cleaner loop is deleting the segment right now
 			// (deleted segments stay listed until the pass installs its result)
 			x.st.transientOpen.Add(1)
@@ -199,7 +199,9 @@ func (x *c03rCase) readErr(rd *c03rReader, err error) bool {
 				return true
 			}
 			err = e
-			if pkgErrors.Cause(e) != ErrSegmentClosed || !x.passRunning() {
+			if pkgErrors.Cause(e) != ErrSegmentClosed || (try > 2000 && !x.passRunning()) {
+				// (a pass of the log's own cleaner loop is not visible to passRunning: a closed
+				// segment met while opening is transient; only a persistent one is judged)
 				break
 			}
 		}
@@ -372,6 +374,9 @@ func c03rRunCase(rep *kit.Report, st *c03rStats, idx int, seed uint64) {
 		return
 	}
 	x.l = l
+	if idx < 4 {
+		rep.Sample(x.params)
+	}
 	ctx, cancel := context.WithCancel(context.Background())
 	var long []*c03rReader
 	defer func() {
@@ -447,6 +452,7 @@ func c03rRunCase(rep *kit.Report, st *c03rStats, idx int, seed uint64) {
 		if old == -1 || old > hw {
 			st.overtaken.Add(1)
 			overtakenClass["hw-segment-removed"] = true
+			rep.Nontrivial(fmt.Sprintf("mode=%d seg=%d kind=%d n1=%d h0=%d", x.mode, maxSeg, kind, n1, h0))
 			for _, rd := range long {
 				if !rd.isEnded() {
 					st.parkedAcross.Add(1)
@@ -543,7 +549,7 @@ func c03rRunCase(rep *kit.Report, st *c03rStats, idx int, seed uint64) {
 		return
 	}
 	if len(overtakenClass) > 0 {
-		rep.Nontrivial(fmt.Sprintf("mode=%d seg=%d kind=%d classes=%v n1=%d h0=%d", x.mode, maxSeg, kind, kit.SortedKeys(overtakenClass), n1, h0))
+		st.completed.Add(1)
 	}
 }
 
@@ -567,6 +573,7 @@ func TestVerifC03RetentionHW(t *testing.T) {
 		}
 		c03rRunCase(rep, st, i, seeds[i])
 	})
+	rep.Count("overtaken_cases_run_to_quiescence", st.completed.Load())
 	rep.Count("retention_passes", st.passes.Load())
 	rep.Count("steps_with_oldest_above_hw", st.overtaken.Load())
 	rep.Count("steps_with_whole_segments_above_hw_removed", st.aboveRemoved.Load())
